@@ -177,6 +177,26 @@ class PathCtx:
           return "unsat"
       except z3.Z3Exception:
         pass
+    if z3.is_eq(simp) and simp.arg(0).sort() == z3.RealSort():
+      try:
+        if _identity_by_cases(simp.arg(0), simp.arg(1), self.pc):
+          ob = Obligation(name, "unsat", time.time() - t0, "z3-cases+simplify(som)", kind=kind, detail=detail)
+          self.obligations.append(ob)
+          if assume_after:
+            self.assume(claim)
+          return "unsat"
+      except z3.Z3Exception:
+        pass
+    # stage 1: the claim as a pure identity (no hypotheses) — cheap and often enough
+    s0 = z3.Solver()
+    s0.set("timeout", min(3000, OBL_TIMEOUT_MS))
+    s0.add(z3.Not(claim))
+    if s0.check() == z3.unsat:
+      ob = Obligation(name, "unsat", time.time() - t0, "z3(no-hypotheses)", kind=kind, detail=detail)
+      self.obligations.append(ob)
+      if assume_after:
+        self.assume(claim)
+      return "unsat"
     s = z3.Solver()
     s.set("timeout", OBL_TIMEOUT_MS)
     for c in self.pc:
@@ -221,6 +241,46 @@ class PathCtx:
     """An error state reached on a feasible path: pc => False is violated."""
     return self.oblige(name, z3.BoolVal(False), kind=kind, detail=detail,
                        assume_after=False)
+
+
+def _collect_ite_conds(e, out, seen):
+  if e.get_id() in seen:
+    return
+  seen.add(e.get_id())
+  if z3.is_app(e):
+    if e.decl().kind() == z3.Z3_OP_ITE:
+      c = e.arg(0)
+      if all(not c.eq(o) for o in out):
+        out.append(c)
+    for ch in e.children():
+      _collect_ite_conds(ch, out, seen)
+
+
+def _identity_by_cases(a, b, pc, max_conds=6):
+  """a == b by case analysis over the if-then-else conditions occurring in it, each case being a
+  polynomial identity established by normalisation to a sum of monomials (divisions and
+  uninterpreted applications are atoms).  Cases inconsistent with the linear part of pc are skipped."""
+  diff = a - b
+  conds = []
+  _collect_ite_conds(diff, conds, set())
+  if len(conds) > max_conds:
+    return False
+  import itertools
+  lin = z3.Solver()
+  lin.set("timeout", 2000)
+  for p in pc:
+    # only cheap hypotheses (no non-linear terms) are used to discard inconsistent cases
+    if len(str(p)) < 400:
+      lin.add(p)
+  for bits in itertools.product((True, False), repeat=len(conds)):
+    lits = [c if bit else z3.Not(c) for c, bit in zip(conds, bits)]
+    if conds and lin.check(*lits) == z3.unsat:
+      continue
+    sub = [(c, z3.BoolVal(bit)) for c, bit in zip(conds, bits)]
+    d = z3.simplify(z3.substitute(diff, *sub), som=True) if sub else z3.simplify(diff, som=True)
+    if not (z3.is_rational_value(d) and d.numerator_as_long() == 0):
+      return False
+  return True
 
 
 def _safe(s):
